@@ -342,6 +342,21 @@ func (c18) Gen(rng *rand.Rand, tier string, i int) *sim.Scenario {
 	switch i % 3 {
 	case 0: // enrichment
 		pool := []string{"198.18.0.1", "198.18.0.2", "10.1.2.3", "2001:db8:aa::1", "2001:db8:aa::2", "::ffff:198.18.0.1", "203.0.113.77", "192.0.2.55"}
+		// ... and addresses of every class a hop or a target can have (the resolver is asked for whatever
+		// address the hop carries; which classes "deserve" a PTR query is not the library's call)
+		classes := []string{"127.0.0.1", "127.8.9.10", "::1", "169.254.0.1", "169.254.200.7", "fe80::1", "fe80::abcd:1234", "224.0.0.1", "239.1.2.3", "ff02::1", "ff0e::99",
+			"255.255.255.255", "0.0.0.0", "::", "100.64.0.1", "100.127.255.254", "fd00::1", "fc00:1::2", "172.16.0.1", "192.168.255.255", "192.0.0.8", "198.51.100.1", "240.0.0.1", "64:ff9b::c000:201",
+			"2002:c000:201::1", "2001::1", "::ffff:10.0.0.1", "::ffff:127.0.0.1", "1.1.1.1", "8.8.8.8", "2606:4700::1111"}
+		for k := between(rng, 0, 4); k > 0; k-- {
+			a := pick(rng, classes...)
+			dup := false
+			for _, p := range pool {
+				dup = dup || dnsKey(mustParse(p)) == dnsKey(mustParse(a))
+			}
+			if !dup {
+				pool[rng.IntN(len(pool))] = a
+			}
+		}
 		var hops []sim.Hop
 		for t := 1; t <= between(rng, 1, 9); t++ {
 			h := sim.Hop{TTL: t}
@@ -504,6 +519,19 @@ func (c18) Check(out *sim.Outcome, ri *RunInfo) []Violation {
 					if fmt.Sprint(d.Names) == fmt.Sprint(names) || (len(d.Names) == 0 && len(names) == 0) {
 						match = true
 					}
+				}
+			}
+			if len(calls) == 0 && len(names) == 0 {
+				// the resolver was never asked about this address (the cache is empty when the call starts):
+				// "the names the resolver returned for that address" are then missing whenever it has some
+				for _, pl := range out.Sc.DNS {
+					if pl.Addr != dnsKey(addr) || len(pl.Script) == 0 {
+						continue
+					}
+					if b, _, _ := strings.Cut(pl.Script[0], ":"); b == "names" || b == "dupnames" || b == "slow" {
+						vs = append(vs, Violation{Rule: "C18.not-resolved", Detail: fmt.Sprintf("%s %s carries no names and the resolver was never asked about it; it answers %q for that address", what, addr, pl.Script[0]), Facts: facts("family", family)})
+					}
+					break
 				}
 			}
 			switch {
